@@ -132,8 +132,8 @@ PROPS = {
         "vm_k": 3,
         "replay_hint": "evaluate the printed program in a fresh environment (lisp.READ + lisp.EVAL), e.g. echo PROGRAM | go/bin/enc -impl",
         "technique": 'Coq model of EVAL with an explicit host-stack depth parameter; theorems that tail positions continue at the same depth; numeric comparison of predicted vs observed lisp.EVAL frame counts for generated loop shapes',
-        "level_text": "Theorems C08_*: in the transcribed EVAL the selected if branch, the last form of do, the body of a called closure and the expansion of a macro call are evaluated at the same depth d (= number of lisp.EVAL frames), for all programs/states/fuel. cond/and/or are the repository's own lisp text (regenerated), their constant depth is shown by computed examples and by the correspondence: for each generated loop shape (1-3 mutually recursive functions, nested tail contexts do/let/if/cond/and/or/fn-body) the model predicts the exact number of frames at n=0,1,2,10,120 and the harness counts them with runtime.Callers.",
-        "level_note": "trusted: Coq kernel+VM, extraction (ExtrOcamlBasic), OCaml glue driver, Go harness, translator go/cmd/gen (headers through the repository's own reader); modelled not verified: Go runtime behaviour behind each checked primitive (index/slice/type assertion), reflect assignability, map iteration order (programs with effects inside map literals are not generated), metadata, printing of functions/atoms; a general theorem over all tail contexts at once (induction on contexts) is not stated, only the per-construct equations",
+        "level_text": "Theorems C08_*: in the transcribed EVAL the selected if branch, the last form of do and of a let body, the body of a called closure and the expansion of a macro call are evaluated at the same depth d (= number of lisp.EVAL frames), for all programs/states/fuel; and the general statement C08_tail_loops_use_no_stack: along ANY sequence of such hand-overs (tail_steps: any nesting of the tail constructs, any number of iterations, recursion spread over any number of functions) the evaluation of the original form equals the evaluation of the form reached at the SAME depth d. cond/and/or are the repository's own lisp text (regenerated), their constant depth is shown by computed examples and by the correspondence: for each generated loop shape (1-3 mutually recursive functions, nested tail contexts do/let/if/cond/and/or/fn-body) the model predicts the exact number of frames at n=0,1,2,10,120 and the harness counts them with runtime.Callers.",
+        "level_note": "trusted: Coq kernel+VM, extraction (ExtrOcamlBasic), OCaml glue driver, Go harness, translator go/cmd/gen (headers through the repository's own reader); modelled not verified: Go runtime behaviour behind each checked primitive (index/slice/type assertion), reflect assignability, map iteration order (programs with effects inside map literals are not generated), metadata, printing of functions/atoms; the catch handler's tail position (the try form's `continue`) is not among the tail_step constructors",
         "trusted": ["hand-written model of mal.go/env.go/call.go/core.go (Eval.v, Env.v, Binder.v, Core.v); tie = correspondence + regenerated headers"],
         "assumptions": ["programs terminate within the model fuel (RUN_FUEL=20000 loop iterations)"],
     },
